@@ -330,9 +330,10 @@ fn c14_o3_maintenance_timers() {
 //@ cap: 2400
 //@ standins: tracing lru vcoll
 //@ desc: one ping round: check_nodes_to_ping_and_remove_stale_nodes removes exactly the entries not heard from for more than 900 s and returns exactly the addresses of the kept entries not heard from for more than 10 s (so a peer that answered less than 15 minutes ago survives every round and a silent one is gone at the first round after 15 minutes)
-//@ bounds: main table with 3 entries of symbolic ages (<= 2000 s each), signed-peers table empty; unwind 26
+//@ bounds: main table with 3 entries of symbolic ages (<= 2000 s each) in one bucket, optionally preceded by an emptied nearer bucket (as remove() leaves), signed-peers table empty; unwind 26, RoutingTableIterator::next 163
 //@ stubs: Instant::now; getrandom::fill
-//@ functions: Core::check_nodes_to_ping_and_remove_stale_nodes, Node::{is_stale,should_ping}, RoutingTable::{nodes,remove}
+//@ functions: Core::check_nodes_to_ping_and_remove_stale_nodes, Node::{is_stale,should_ping}, RoutingTable::{nodes,remove}, RoutingTableIterator::next
+//@ unwindset: RoutingTableIterator = 163
 #[kani::proof]
 #[kani::stub(std::time::Instant::now, clock::now)]
 #[kani::stub(getrandom::fill, rnd::fill)]
@@ -361,7 +362,12 @@ fn c14_o2_ping_round() {
     kani::assume(dt <= 2000);
     let now = t + dt;
     clock::set(now);
-    core.routing_table = crate::common::kani_h_routing_table::table_with(Id::from([0u8; 20]), ns);
+    let gap: bool = kani::any();
+    core.routing_table = if gap {
+        crate::common::kani_h_routing_table::table_with_emptied_bucket(Id::from([0u8; 20]), ns)
+    } else {
+        crate::common::kani_h_routing_table::table_with(Id::from([0u8; 20]), ns)
+    };
     let to_ping = core.check_nodes_to_ping_and_remove_stale_nodes();
     let mut kept = 0usize;
     let mut pinged = 0usize;
@@ -381,6 +387,7 @@ fn c14_o2_ping_round() {
     kani::cover!(kept == 2 && pinged == 1);
     kani::cover!(kept == 0);
     kani::cover!(kept == 3 && pinged == 0);
+    kani::cover!(gap && kept == 1);
     std::mem::forget(to_ping);
     std::mem::forget(core);
 }
